@@ -170,6 +170,17 @@ def helper_purity():
     return obs
 
 
+def store_units_c05():
+    """File and prompt are indistinguishable to lines only if InputStore answers "supplied?" and "which text?" as a function of the
+    parsed file alone (own section or [DEFAULT]) and a stored answer changes no other input: the InputStore units."""
+    from . import store_units
+    out = []
+    for o in store_units.store_provides() + store_units.store_getitem() + store_units.store_setitem():
+        o.id = o.id.replace('C11/', 'C05/store/')
+        out.append(o)
+    return out
+
+
 def solver_order_frames():
     """sort_keys is used only as a sort key; InputStore reaches its config only through keyed access."""
     from habutax import solver, inputs
@@ -349,7 +360,7 @@ def solver_layer(tier, seed):
 
 
 def run(tier, seed, t0):
-    tasks = [Task('lean', lean_lemma), Task('frames', solver_order_frames), Task('helpers', helper_purity), Task('setitem', store_setitem), Task('small', small_units.all_small), Task('solver', solver_layer, tier, seed, weight=20)]
+    tasks = [Task('lean', lean_lemma), Task('frames', solver_order_frames), Task('helpers', helper_purity), Task('setitem', store_setitem), Task('store', store_units_c05), Task('small', small_units.all_small), Task('solver', solver_layer, tier, seed, weight=20)]
     tasks += [Task(f'pure/{y}', purity, y, weight=3) for y in extract.YEARS]
     obs = oblig.run_tasks(tasks, jobs=8)
     for o in obs:
